@@ -83,6 +83,18 @@ CHECKS["C19"] = {
     "assumptions": ["one clock for all parties", _SAMPLING],
 }
 
+CHECKS["C11"] = {
+    "level": "fault_enumeration",
+    "technique": _TECH + ": real TOKEN client and server halves with in-memory keys; token mutated bit by bit and aged with the virtual clock moved mid-exchange; field-aware relay over the three AKEP2 messages; independent token/signature/time reference",
+    "level_text": "Fault enumeration, one deviation at a time: (a) the client's token is mutated - every bit of header, payload and signature (thorough; every 8th in quick), signed by another key, naming an unknown key id or none, another subject, too old already, expiring or becoming too old while the server is held for 5 or 30 virtual seconds before it reads the first AKEP2 message; (b) the server holds a different key under the same id, no key, an empty key; (c) a field-aware relay between real client and real server (plaintext session, so that the encrypted-session transcript binding cannot mask a missing check) makes each element of the three AKEP2 messages wrong, truncated and empty (status codes 1/-1/7, the claimed identity replaced, trailing bytes appended); (d) security.VerifyIDToken is run on the same token variants at 7 clock positions around exp and max-age. Oracle: an independent reference (HKDF+HMAC signature, time rule, evaluated at the virtual instant the server validates) says whether the server MAY accept: server success requires a definitely valid token and the recorded user must be the user part of the token's subject; client success requires that the server really held the signature; for every altered proof, echo, nonce or status the receiver of that message must not succeed; VerifyIDToken must agree with the reference off the exact time boundaries.",
+    "level_note": "At the exact boundaries (now == exp, age == max age) either answer is accepted (the statement does not fix >= vs >). Trailing bytes are counted, not judged. The wire token is header.payload only; 'bits of the signature' are bits of the client's configured token.",
+    "budget": {"quick": 20, "thorough": 600},
+    "rule": "a case is one deviation (token variant, server key variant, relay field mutation, or verifier input x clock) run as a real handshake or verifier call in the simulator; distinct = distinct event-log hash; non-trivial = a fault fired or the scheduler had a choice.",
+    "real": _REAL_SEC + ["security.VerifyIDToken"],
+    "stub": _SIM + ["field-aware relay (refcodec AKEP2 layouts)", "reference token signature/time rule (refcodec)", "in-memory credential reader"],
+    "assumptions": ["AKEP2 message layouts as read from the protocol exchange", _SAMPLING],
+}
+
 CHECKS["C16"] = {
     "level": "exploration",
     "technique": _TECH + ": minter node and importer node with separate caches on the simulated network; generated mint options; real handshakes naming the session in both dial directions; virtual-time lifetime",
